@@ -1,15 +1,186 @@
-"""C10 - the target list is assembled faithfully from every source."""
-import os, json, shutil
+"""C10 - the target list is assembled faithfully from every source.
+
+Two implementation-side engines, one model:
+  A  harness/wcoll_harness.c : read_wcoll() of the repository on generated directory trees (forked child per case,
+     5 s alarm), hosts in hex - long lines, include graphs, odd directory names, malformed directives;
+  B  the real pdsh binary (lib/realeng.py) : `pdsh -Q -w ... -w ...` with generated words, ^files, '-' (standard
+     input), WCOLL in the environment, every order and grouping - the whole path through opt.c.
+Both are compared with the extracted Coq model (Args/WcollFile.v, Args/Assemble.v through ocaml/args_runner.ml) and
+judged by S restated below in Python, independently of the code and of the Coq text."""
+import os, json, shutil, time
 import vlib, hlgen
 from vlib import hexs, unhex, hexlist
 
 PROP = "C10"
 NAMES = [b"A", b"B", b"C", b"D", b"grp", b"hosts.txt"]
+PATH_MAX = 4096
+
+# =====================================================================================================================
+# S, restated: the property, independent of the code.
+# =====================================================================================================================
+SEPS = b" \t\r\n"
 
 
-def gen_line(r, names, cur):
-    k = r.weighted([("host", 8), ("range", 4), ("comment", 2), ("trail_comment", 2), ("blank", 2), ("include", 5), ("bad_include", 1),
-                    ("long", 1), ("indented_include", 1), ("multi", 2)])
+class SErr(Exception):
+    pass
+
+
+class SOutOfScope(Exception):
+    pass
+
+
+def s_lines(content):
+    """the lines of a text: what stands between newlines; a final newline ends the last line"""
+    ls = content.split(b"\n")
+    if ls and ls[-1] == b"":
+        ls.pop()
+    return ls
+
+
+def s_directive(line):
+    """None: not a directive line; ('bad',): '#include' without exactly one name; ('inc', name)"""
+    if not line.startswith(b"#include"):
+        return None
+    toks = line[8:].replace(b"\t", b" ").replace(b"\r", b" ").replace(b"\n", b" ").split(b" ")
+    toks = [t for t in toks if t]
+    return ("inc", toks[0]) if len(toks) == 1 else ("bad",)
+
+
+def s_entry(line):
+    """the host expression of an ordinary line: comment removed, surrounding blanks removed"""
+    return line.split(b"#")[0].strip(b" \t")
+
+
+def s_dirname(p):
+    """POSIX dirname"""
+    q = p.rstrip(b"/")
+    if not q:
+        return b"/" if p else b"."
+    if b"/" not in q:
+        return b"."
+    d = q[:q.rindex(b"/")].rstrip(b"/")
+    return d if d else b"/"
+
+
+def s_locate(d, g):
+    if g.startswith(b"/") or g.startswith(b"./") or g.startswith(b"../"):
+        return g
+    return d + b"/" + g
+
+
+def s_read(readf, lines, d, seen, warns):
+    out = []
+    for l in lines:
+        if l.startswith(b"#"):
+            k = s_directive(l)
+            if k is None:
+                continue                        # a comment
+            if k[0] == "bad":
+                warns[0] += 1
+                continue
+            p = s_locate(d, k[1])
+            if p in seen:
+                warns[0] += 1                   # reached a second time: skipped with a warning
+                continue
+            c = readf(p)
+            if c is None:
+                raise SErr(p)
+            seen.add(p)
+            out += s_read(readf, s_lines(c), d, seen, warns)
+        else:
+            e = s_entry(l)
+            if e:
+                out.append(e)
+    return out
+
+
+def s_file(readf, path, warns):
+    c = readf(path)
+    if c is None:
+        raise SErr(path)
+    d = s_dirname(path)
+    return s_read(readf, s_lines(c), d, {d + b"/" + path.split(b"/")[-1]}, warns)
+
+
+def s_stream(readf, content, warns):
+    return s_read(readf, s_lines(content), b".", set(), warns)
+
+
+def s_split(arg):
+    """the words of a -w argument: cut at the commas that are not between brackets"""
+    words, cur, depth = [], b"", 0
+    for ch in arg:
+        c = bytes([ch])
+        if c == b"," and depth == 0:
+            words.append(cur)
+            cur = b""
+            continue
+        if c == b"[":
+            depth += 1
+        elif c == b"]":
+            depth -= 1
+        cur += c
+    words.append(cur)
+    return [w for w in words if w]
+
+
+def s_assemble(readf, args, stdin, wcoll):
+    """('OK', expressions in order, warnings) | ('ERR',) | ('SKIP',)"""
+    warns = [0]
+    out, given, sin = [], False, stdin
+
+    def source(path):
+        nonlocal sin
+        if path == b"-":
+            r = s_stream(readf, sin, warns)
+            sin = b""                           # standard input is read once
+            return r
+        return s_file(readf, path, warns)
+    try:
+        for a in args:
+            for w in s_split(b"^-" if a == b"-" else a):
+                excl = w.startswith(b"-")
+                body = (w[1:] if excl else w).lstrip(b" \t\n\v\f\r")
+                if body.startswith(b"^"):
+                    es = source(body[1:])
+                    if not excl:
+                        out += es
+                        given = True
+                elif body.startswith(b"/"):
+                    raise SOutOfScope()         # a filter: C02
+                elif excl:
+                    pass                        # an exclusion: C02
+                elif b":" in body or b"@" in body:
+                    raise SOutOfScope()         # rcmd_type:user@hosts: C09
+                else:
+                    out.append(body)
+                    given = True
+        if not given and wcoll is not None:
+            out += source(wcoll)                # WCOLL only when nothing else named a target
+    except SErr:
+        return ("ERR",)
+    except SOutOfScope:
+        return ("SKIP",)
+    return ("OK", out, warns[0])
+
+
+# =====================================================================================================================
+# generators
+# =====================================================================================================================
+def long_hosts(n):
+    hosts, tot, i = [], 0, 0
+    while tot < n:
+        h = b"node%04d" % i
+        hosts.append(h)
+        tot += len(h) + 1
+        i += 1
+    return b",".join(hosts)
+
+
+def gen_line(r, names, big=True, sub=b"", absdir=None):
+    k = r.weighted([("host", 8), ("range", 4), ("comment", 2), ("trail_comment", 2), ("blank", 2), ("include", 6), ("bad_include", 1),
+                    ("long", 1 if big else 0), ("indented_include", 1), ("multi", 2), ("long_small", 1), ("noblank_include", 1),
+                    ("cr_include", 1), ("asis_include", 2), ("long_rel_include", 1 if big else 0), ("hash_include_comment", 1)])
     if k == "host":
         return hlgen.gen_text(r, ("alpha", "alnum", "dash", "dot"))
     if k == "range":
@@ -17,176 +188,520 @@ def gen_line(r, names, cur):
     if k == "comment":
         return b"# " + hlgen.gen_text(r, ("alpha",))
     if k == "trail_comment":
-        return hlgen.gen_text(r, ("alpha", "alnum")) + r.choice([b" # c", b"#c", b"\t# x y"])
+        return hlgen.gen_text(r, ("alpha", "alnum")) + r.choice([b" # c", b"#c", b"\t# x y", b" #include A"])
     if k == "blank":
         return r.choice([b"", b" ", b"\t", b"  \t "])
     if k == "include":
         return b"#include" + r.choice([b" ", b"\t", b"  "]) + r.choice(names) + r.choice([b"", b" ", b"\t"])
     if k == "bad_include":
-        return r.choice([b"#include", b"#include ", b"#include a b", b"#includ A", b"# include A"])
+        return r.choice([b"#include", b"#include ", b"#include a b", b"#includ A", b"# include A", b"#include A B C", b"#include \t"])
+    if k == "hash_include_comment":
+        return r.choice([b"#Include A", b"##include A", b"#INCLUDE B"])
     if k == "indented_include":
-        return b" #include " + r.choice(names)
+        return r.choice([b" ", b"\t"]) + b"#include " + r.choice(names)
+    if k == "noblank_include":
+        return b"#include" + r.choice(names)
+    if k == "cr_include":
+        return b"#include " + r.choice(names) + b"\r"
+    if k == "asis_include":
+        # names with a leading / ./ ../ are taken as they are, i.e. relative to the current directory
+        n = r.choice(names)
+        p = (sub + b"/" if sub else b"") + n
+        form = r.weighted([("dot", 4), ("abs", 2 if absdir else 0), ("dotdot", 1), ("dotdot_missing", 1)])
+        if form == "dot":
+            return b"#include ./" + p
+        if form == "abs":
+            return b"#include " + absdir + b"/" + p
+        if form == "dotdot":
+            return b"#include ../" + os.path.basename(absdir or b"x") + b"/" + p if absdir else b"#include ./" + p
+        return b"#include ../nosuchdir/" + n
     if k == "multi":
         return b" " + hlgen.gen_text(r, ("alpha",)) + b"1," + hlgen.gen_text(r, ("alpha",)) + b"2 \t"
+    if k == "long_small":
+        # long lines whose host list is short: blanks before a name that straddles the old 2048-byte buffer,
+        # or a comment longer than the buffer
+        if r.chance(1, 2):
+            return b" " * r.choice([2036, 2040, 2044, 4090]) + b"straddle" + hlgen.gen_text(r, ("alnum",))
+        return hlgen.gen_text(r, ("alnum",)) + b" #" + b"x" * r.choice([2046, 2100, 5000])
+    if k == "long_rel_include":
+        return b"#include " + b"n" * r.choice([4090, 4096, 5000])
     # a single very long line: many hosts separated by commas, around the old 2048-byte fgets buffer
-    n = r.choice([2040, 2046, 2047, 2048, 2049, 4095, 4096, 5400, 9000])
-    hosts, tot = [], 0
-    i = 0
-    while tot < n:
-        h = b"node%04d" % i
-        hosts.append(h); tot += len(h) + 1; i += 1
-    return b",".join(hosts)
+    return long_hosts(r.choice([2040, 2046, 2047, 2048, 2049, 4095, 4096, 5400, 9000]))
 
 
-def gen_tree(r):
-    """returns (fs dict path->bytes relative to the scratch dir, top-level file path)"""
-    sub = r.choice([b"", b"", b"d", b"d/e"])
-    k = r.range(1, 5)
-    names = NAMES[:k]
+SUBDIRS_A = [b"", b"", b"d", b"d/e", b"a:b", b"b[1:2]k", b"c,d", b"s p"]
+SUBDIRS_B = [b"", b"", b"d", b"d/e", b"a:b", b"b[1:2]k"]
+
+
+def gen_files(r, sub, names, big, absdir):
     fs = {}
     for n in names:
-        lines = [gen_line(r, names, n) for _ in range(r.range(0, 7))]
+        lines = [gen_line(r, names, big, sub, absdir) for _ in range(r.range(0, 7))]
         body = b"\n".join(lines)
         if lines and not r.chance(1, 5):
             body += b"\n"
         fs[(sub + b"/" if sub else b"") + n] = body
+    return fs
+
+
+def gen_tree(r, absdir):
+    """engine A: (fs, top)"""
+    sub = r.choice(SUBDIRS_A)
+    names = NAMES[:r.range(1, 5)]
+    fs = gen_files(r, sub, names, True, absdir)
     top = (sub + b"/" if sub else b"") + r.choice(names)
     if r.chance(1, 12):
-        # an include of something that does not exist
         fs[top] += b"#include nosuchfile\n"
+    if r.chance(1, 10):
+        top = b"./" + top
+    if r.chance(1, 25):
+        # a NUL byte in a line: correspondence only (S speaks of text files)
+        k = r.choice(sorted(fs))
+        fs[k] = fs[k] + b"nul\x00tail,#include A\n"
     return fs, top
 
 
-def s_assemble(fs, top):
-    """S: the property, independent of the code: lines in order, comments and blanks ignored, '#include F'
-    (exactly, first column) replaced in place by F's hosts, F looked up in the directory of the file named on the
-    command line; a file reached a second time is skipped; unreadable is an error.  Returns (exprs, warnings) or None."""
-    d = os.path.dirname(top) or b"."
-    seen = {os.path.normpath(os.path.join(d, os.path.basename(top)))}
-    warns = [0]
+def gen_cmdline(r, absdir):
+    """engine B: (fs, args, stdin, wcoll)"""
+    subs = [r.choice(SUBDIRS_B)]
+    if r.chance(1, 3):
+        s2 = r.choice(SUBDIRS_B)
+        if s2 not in subs:
+            subs.append(s2)
+    fs, tops = {}, []
+    for sub in subs:
+        names = NAMES[:r.range(1, 4)]
+        fs.update(gen_files(r, sub, names, False, absdir))
+        tops += [(sub + b"/" if sub else b"") + n for n in names]
+    top_names = sorted(set(os.path.basename(t) for t in tops))
+    stdin = b""
+    items = []
+    nsrc = r.weighted([(0, 1), (1, 3), (2, 4), (3, 4), (4, 2), (5, 1)])
+    for _ in range(nsrc):
+        k = r.weighted([("word", 5), ("range", 2), ("file", 6), ("stdin", 3), ("excluded", 1), ("missing", 1), ("exfile", 1), ("spaced", 1)])
+        if k == "word":
+            items.append(hlgen.gen_text(r, ("alpha", "alnum", "dash", "dot")))
+        elif k == "range":
+            items.append(hlgen.gen_text(r, ("alpha",)) + b"[" + r.choice([b"1-3", b"07-09", b"1,3", b"2,5-6"]) + b"]")
+        elif k == "file":
+            t = r.choice(tops)
+            items.append(b"^" + (b"./" + t if r.chance(1, 8) else (absdir + b"/" + t if r.chance(1, 10) else t)))
+        elif k == "stdin":
+            items.append(r.choice([b"-", b"^-"]))
+        elif k == "excluded":
+            items.append(b"-0x" + hlgen.gen_text(r, ("digits",)))       # excludes a host nobody names
+        elif k == "missing":
+            items.append(r.choice([b"^nosuchfile", b"^d/nosuch", b"^"]))
+        elif k == "exfile":
+            # an excluded file is still read (unreadable = error, standard input used up); its hosts (zz..) are named
+            # nowhere else, so the exclusion itself (C02) changes nothing
+            fs[b"X"] = b"zzx1\nzzx[2-3] # excluded\n"
+            items.append(r.choice([b"-^nosuchfile", b"-^-", b"-^X"]))
+        else:
+            items.append(b" " + r.choice([hlgen.gen_text(r, ("alpha",)), b"^" + r.choice(tops)]))
+    if b"-^-" in items:
+        stdin = b"zzs1\nzzs2\n"
+    elif any(i in (b"-", b"^-") for i in items) or r.chance(1, 6):
+        stdin = b"\n".join(gen_line(r, top_names, False, b"", absdir) for _ in range(r.range(0, 5))) + r.choice([b"\n", b""])
+    # group the items into -w arguments: "-" must be an argument of its own to mean standard input
+    args, cur = [], []
+    for it in items:
+        if it == b"-":
+            if cur:
+                args.append(b",".join(cur))
+                cur = []
+            args.append(it)
+            continue
+        cur.append(it)
+        if not r.chance(1, 3):
+            args.append(b",".join(cur))
+            cur = []
+    if cur:
+        args.append(b",".join(cur))
+    wk = r.weighted([("unset", 5), ("file", 4), ("missing", 1), ("stdin", 1)])
+    wcoll = None if wk == "unset" else r.choice(tops) if wk == "file" else b"nosuchwcoll" if wk == "missing" else b"-"
+    if wcoll == b"-" and not stdin:
+        stdin = b"fromstdin1\n#include " + r.choice(top_names) + b"\n"
+    return fs, args, stdin, wcoll
 
-    def rd(path):
-        out = []
-        content = fs.get(os.path.normpath(path))
-        if content is None:
-            raise KeyError(path)
-        lines = content.split(b"\n")
-        if lines and lines[-1] == b"":
-            lines.pop()
-        for l in lines:
+
+def exhaustive_orders():
+    """thorough: every order of word / file / stdin / second file, every grouping into one or several -w"""
+    import itertools
+    fs = {b"F": b"f1\n#include G\nf2\n", b"G": b"g1\n#include F\n", b"d/H": b"h1 # c\n#include K\n", b"d/K": b"k[1-2]\n"}
+    srcs = [b"w1", b"^F", b"-", b"^d/H", b"-0x9"]
+    out = []
+    for n in (1, 2, 3, 4):
+        for perm in itertools.permutations(srcs, n):
+            for mask in range(1 << (n - 1)):
+                args, cur = [], []
+                for i, it in enumerate(perm):
+                    if it == b"-":
+                        if cur:
+                            args.append(b",".join(cur))
+                            cur = []
+                        args.append(it)
+                        continue
+                    cur.append(it)
+                    if not (mask >> i) & 1:
+                        args.append(b",".join(cur))
+                        cur = []
+                if cur:
+                    args.append(b",".join(cur))
+                for wcoll in (None, b"d/K"):
+                    out.append((fs, args, b"s1\n#include F\ns2", wcoll))
+    return out
+
+
+# =====================================================================================================================
+# running cases
+# =====================================================================================================================
+def write_tree(d, fs):
+    for p, c in fs.items():
+        fp = os.path.join(d.encode(), p)
+        os.makedirs(os.path.dirname(fp), exist_ok=True)
+        with open(fp, "wb") as f:
+            f.write(c)
+
+
+def disk_reader(d):
+    db = d.encode()
+
+    def readf(p):
+        if len(p) >= PATH_MAX or not p:
+            return None
+        fp = p if p.startswith(b"/") else os.path.join(db, p)
+        try:
+            if not os.path.isfile(fp) or not os.access(fp, os.R_OK):
+                return None
+            with open(fp, "rb") as f:
+                return f.read()
+        except (OSError, ValueError):
+            return None
+    return readf
+
+
+def model_fs(readf, texts, tops):
+    """the abstract file system handed to the model: every path string the code could build (the file names given,
+    every include name as it is or below the directory of a given file or below '.'), looked up on the disk"""
+    toks = set()
+    for c in texts:
+        for l in c.split(b"\n"):
+            l = l.split(b"\x00")[0]
             if l.startswith(b"#include"):
-                rest = l[8:].lstrip(b" \t")
-                toks = rest.replace(b"\r", b" ").replace(b"\t", b" ").split()
-                if len(toks) != 1:
-                    warns[0] += 1
-                    continue
-                g = toks[0]
-                tgt = g if (g.startswith(b"/") or g.startswith(b"./") or g.startswith(b"../")) else os.path.join(d, g)
-                key = os.path.normpath(tgt)
-                if key not in fs:
-                    raise KeyError(tgt)
-                if key in seen:
-                    warns[0] += 1
-                    continue
-                seen.add(key)
-                out += rd(tgt)
+                for t in l[8:].replace(b"\t", b" ").replace(b"\r", b" ").split(b" "):
+                    if t:
+                        toks.add(t)
+    dirs = {b"."} | {s_dirname(t) for t in tops}
+    cands = set(tops)
+    for t in toks:
+        if t.startswith(b"/") or t.startswith(b"./") or t.startswith(b"../"):
+            cands.add(t)
+        else:
+            for d in dirs:
+                cands.add(d + b"/" + t)
+    out = []
+    for p in sorted(cands):
+        c = readf(p)
+        if c is not None:
+            out.append("%s=%s" % (hexs(p), hexs(c)))
+    return out
+
+
+def case_texts(c):
+    return list(c["fs"].values()) + [c.get("stdin", b"")]
+
+
+def case_tops(c):
+    if c["engine"] == "A":
+        return [c["top"]]
+    tops = []
+    for a in c["args"]:
+        for w in s_split(a):
+            b = (w[1:] if w.startswith(b"-") else w).lstrip(b" \t\n\v\f\r")
+            if b.startswith(b"^") and b != b"^-":
+                tops.append(b[1:])
+    if c.get("wcoll") not in (None, b"-"):
+        tops.append(c["wcoll"])
+    return [t for t in tops if t]
+
+
+def to_json(c):
+    j = {"engine": c["engine"], "fs": {k.decode("latin-1"): v.decode("latin-1") for k, v in c["fs"].items()}}
+    if c["engine"] == "A":
+        j["top"] = c["top"].decode("latin-1")
+    else:
+        j.update(args=[a.decode("latin-1") for a in c["args"]], stdin=c["stdin"].decode("latin-1"),
+                 wcoll=None if c["wcoll"] is None else c["wcoll"].decode("latin-1"))
+    return j
+
+
+def from_json(j):
+    c = {"engine": j.get("engine", "A"), "fs": {k.encode("latin-1"): v.encode("latin-1") for k, v in j["fs"].items()}}
+    if c["engine"] == "A":
+        c["top"] = j["top"].encode("latin-1")
+    else:
+        c.update(args=[a.encode("latin-1") for a in j["args"]], stdin=j.get("stdin", "").encode("latin-1"),
+                 wcoll=None if j.get("wcoll") is None else j["wcoll"].encode("latin-1"))
+    return c
+
+
+def short(j):
+    """a case for a replay file, long contents abbreviated"""
+    j = dict(j)
+    j["fs"] = {k: (v if len(v) <= 3000 else v[:3000] + "...[%d bytes]" % len(v)) for k, v in j["fs"].items()}
+    return j
+
+
+class Engines:
+    def __init__(self, ctx):
+        import outeng, hleng, realeng
+        self.ctx = ctx
+        self.harness = ctx.cc([os.path.join(vlib.VERIF, "harness", "wcoll_harness.c")] + [s for s in outeng.PDSH_SRCS] +
+                              [os.path.join(vlib.REPO, "src/pdsh/dsh.c"), write_cfg(ctx)], "wcoll_harness", flags=["-rdynamic"],
+                              libs=["-ldl", "-lpthread"])
+        self.real = realeng.Real(ctx, null_exec=True, tag="real10")
+        self.model = ctx.build_runner("args", "args_model")
+        self.hl = hleng.HL(ctx)
+        self.base = os.path.join(ctx.scratch, "wtrees")
+        os.makedirs(self.base, exist_ok=True)
+        self.absdir = self.base.encode()
+        self.n = 0
+
+    def new_dir(self):
+        self.n += 1
+        return os.path.join(self.base, "t%d" % self.n)
+
+    def run(self, cases):
+        """cases: dicts with 'dir' already chosen (the generators need the absolute path); returns per case
+        (impl result line, model result line, S verdict)"""
+        ctx = self.ctx
+        icasesA, idxA, mcases, specs = [], [], [], []
+        implB = {}
+        for k, c in enumerate(cases):
+            d = c["dir"]
+            write_tree(d, c["fs"])
+            readf = disk_reader(d)
+            fsl = model_fs(readf, case_texts(c), case_tops(c))
+            if c["engine"] == "A":
+                icasesA.append("wcoll %s %s" % (hexs(d.encode()), hexs(c["top"])))
+                idxA.append(k)
+                mcases.append("wcoll %s %s" % (hexs(c["top"]), " ".join(fsl)))
+                w = [0]
+                try:
+                    specs.append(("OK", s_file(readf, c["top"], w), w[0]))
+                except SErr:
+                    specs.append(("ERR",))
+            else:
+                mcases.append("asm %s %s %s %s" % (hexs(c["stdin"]), "_" if c["wcoll"] is None else hexs(c["wcoll"]),
+                                                   ",".join(hexs(a) for a in c["args"]) if c["args"] else ".", " ".join(fsl)))
+                specs.append(s_assemble(readf, c["args"], c["stdin"], c["wcoll"]))
+                argv = ["-Q"]
+                for a in c["args"]:
+                    argv += ["-w", a]
+                env = {} if c["wcoll"] is None else {"WCOLL": c["wcoll"]}
+                rc, out, err = self.real.run(argv, env=env, stdin=c["stdin"], timeout=10, cwd=d)
+                implB[k] = canon_real(rc, out, err)
+        iresA = ctx.run_lines([self.harness], icasesA)
+        mres = ctx.run_lines([self.model], mcases, env={"OCAMLRUNPARAM": "l=4G"}, crash_tag="MODEL-CRASH")
+        ires = [None] * len(cases)
+        for k, v in zip(idxA, iresA):
+            ires[k] = v
+        for k, v in implB.items():
+            ires[k] = v
+        # the hosts of S's expressions: expansion is C01's subject, so the hostlist code itself expands them
+        exprs = sorted(set(e for s in specs if s[0] == "OK" for e in s[1]))
+        e1 = dict(zip(exprs, self.hl.run_impl(["targets1 " + hexs(e) for e in exprs])))
+        e2 = dict(zip(exprs, self.hl.run_impl(["targets " + hexs(e) for e in exprs])))
+        verdicts = []
+        for c, sp in zip(cases, specs):
+            if sp[0] != "OK":
+                verdicts.append(sp[0])
                 continue
-            e = l.split(b"#")[0].strip(b"\n\t ")
-            if e:
-                out.append(e)
-        return out
-    try:
-        return rd(top), warns[0]
-    except KeyError:
+            hosts, unparsed = [], 0
+            for e in sp[1]:
+                er = (e1 if c["engine"] == "A" else e2)[e]
+                hs = vlib.unhexlist(er[3:]) if er.startswith("OK ") else []
+                unparsed += not hs
+                hosts += hs
+            verdicts.append(("OK", hosts, sp[2], unparsed))
+        return ires, mres, verdicts
+
+
+def canon_real(rc, out, err):
+    """what a user sees of `pdsh -Q`: the target list, or a failure"""
+    if rc == -999:
+        return "HANG no answer within 10 s"
+    if rc < 0 or b"Sanitizer" in err or b"runtime error" in err:
+        return "CRASH " + err[-200:].decode("latin-1")
+    if rc != 0:
+        return "FAIL"
+    mark = b"-- Target nodes --\n"
+    if mark not in out:
+        return "FAIL"
+    t = out.split(mark, 1)[1]
+    t = t[:-1] if t.endswith(b"\n") else t
+    if t.endswith(b"[truncated]"):
+        return "TRUNCATED"
+    hosts = t.split(b",") if t else []
+    return "OK W=%d %s" % (err.count(b"warning:"), hexlist(hosts))
+
+
+def canon_model(engine, mo):
+    """the model's answer in the implementation's terms"""
+    if engine == "A":
+        return mo
+    if mo == "ERROR":
+        return "FAIL"
+    if mo.startswith("OK "):
+        f = mo.split(" ")
+        hosts = f[3]
+        if hosts == ".":
+            return "FAIL"                       # opt_verify: no remote hosts specified
+        return "OK %s %s" % (f[1], hosts)
+    return mo
+
+
+def expected_line(engine, v):
+    if v == "ERR":
+        return "FATAL" if engine == "A" else "FAIL"
+    if v == "SKIP":
         return None
+    _, hosts, warns, unparsed = v
+    if engine == "B" and not hosts:
+        return "FAIL"
+    return "OK " + hexlist(hosts)
+
+
+def strip_w(line):
+    return "OK " + line.split(" ", 2)[2] if line.startswith("OK W=") else line
+
+
+def judge(ctx, c, io, mo, v, counters):
+    """returns None or (kind, detail, expected)"""
+    eng = c["engine"]
+    if io.startswith(("CRASH", "HANG")):
+        return ("input", "reading the sources crashed or did not terminate: " + io[:200], "a target list or an error")
+    exp = expected_line(eng, v)
+    has_nul = any(b"\x00" in t for t in case_texts(c))
+    if io == "TRUNCATED":
+        counters["truncated"] += 1
+        return None
+    if exp is not None and not has_nul:
+        if strip_w(io) != exp:
+            return ("input", "the assembled target list differs from the specification", exp)
+        if v != "ERR" and v[2] > 0 and io.startswith("OK W=0 "):
+            return ("input", "a file reached a second time / a malformed #include was skipped without a warning", exp)
+    mc = canon_model(eng, mo)
+    if mc in ("OUTOFSCOPE",):
+        counters["out_of_scope"] += 1
+        return None
+    if eng == "A" and v not in ("ERR", "SKIP") and mc.startswith("OK W=") and io.startswith("OK W="):
+        # warnings about expressions the host-list parser rejects are printed by the code, counted by S's side here
+        mw = int(mc.split(" ")[1][2:]) + v[3]
+        mc = "OK W=%d %s" % (mw, mc.split(" ", 2)[2])
+    if eng == "B" and v not in ("ERR", "SKIP") and mc.startswith("OK W=") and io.startswith("OK W="):
+        mw = int(mc.split(" ")[1][2:]) + v[3]
+        mc = "OK W=%d %s" % (mw, mc.split(" ", 2)[2])
+    if io != mc:
+        return ("corr", "implementation and model disagree", mc)
+    return None
 
 
 def run(ctx):
     ctx.gen_params()
     ctx.prove()
-    import outeng
-    impl = ctx.cc([os.path.join(vlib.VERIF, "harness", "wcoll_harness.c")] + [s for s in outeng.PDSH_SRCS] +
-                  [os.path.join(vlib.REPO, "src/pdsh/dsh.c"), write_cfg(ctx)], "wcoll_harness", flags=["-rdynamic"], libs=["-ldl", "-lpthread"])
-    model = ctx.build_runner("args", "args_model")
-    # the hostlist side of S: expressions -> hosts through the implementation-independent expander of C01 is not
-    # available for arbitrary expressions, so hosts of single expressions come from the hl harness (covered by C01)
-    import hleng
-    hl = hleng.HL(ctx)
+    t0 = time.time()
+    eng = Engines(ctx)
     quick = ctx.tier == "quick"
-    r = ctx.rng("trees")
-    trees = []
+    cases = []
     cdir = os.path.join(vlib.VERIF, "corpus", PROP)
     if os.path.isdir(cdir):
         for fn in sorted(os.listdir(cdir)):
             if fn.endswith(".json"):
-                c = json.load(open(os.path.join(cdir, fn)))
-                trees.append(({k.encode("latin-1"): v.encode("latin-1") for k, v in c["fs"].items()}, c["top"].encode("latin-1")))
-    ncorpus = len(trees)
+                c = from_json(json.load(open(os.path.join(cdir, fn))))
+                c["dir"] = eng.new_dir()
+                cases.append(c)
+    ncorpus = len(cases)
+    rA, rB = ctx.rng("trees"), ctx.rng("cmdlines")
     for _ in range(400 if quick else 8000):
-        trees.append(gen_tree(r))
-    base = os.path.join(ctx.scratch, "wtrees")
-    icases, mcases = [], []
-    for k, (fs, top) in enumerate(trees):
-        d = os.path.join(base, "t%d" % k)
-        for p, c in fs.items():
-            fp = os.path.join(d.encode(), p)
-            os.makedirs(os.path.dirname(fp), exist_ok=True)
-            open(fp, "wb").write(c)
-        icases.append("wcoll %s %s" % (hexs(d.encode()), hexs(top)))
-        mcases.append("wcoll %s %s" % (hexs(top), " ".join("%s=%s" % (hexs(p), hexs(c)) for p, c in fs.items())))
-    ctx.log("running %d file trees" % len(trees))
-    ires = ctx.run_lines([impl], icases)
-    mres = ctx.run_lines([model], mcases, env={"OCAMLRUNPARAM": "l=4G"}, crash_tag="MODEL-CRASH")
-    # S: expected hosts = concatenation of the expansions of the expressions S assembles
-    specs = [s_assemble(fs, top) for fs, top in trees]
-    exprs = sorted(set(e for s in specs if s for e in s[0]))
-    eres = dict(zip(exprs, hl.run_impl(["targets1 " + hexs(e) for e in exprs])))
+        d = eng.new_dir()
+        fs, top = gen_tree(rA, d.encode())
+        cases.append({"engine": "A", "fs": fs, "top": top, "dir": d})
+    for _ in range(500 if quick else 6000):
+        d = eng.new_dir()
+        fs, args, stdin, wcoll = gen_cmdline(rB, d.encode())
+        cases.append({"engine": "B", "fs": fs, "args": args, "stdin": stdin, "wcoll": wcoll, "dir": d})
+    nexh = 0
+    if not quick:
+        for fs, args, stdin, wcoll in exhaustive_orders():
+            cases.append({"engine": "B", "fs": fs, "args": args, "stdin": stdin, "wcoll": wcoll, "dir": eng.new_dir()})
+            nexh += 1
+    ctx.log("running %d cases (%d corpus, %d exhaustive orders)" % (len(cases), ncorpus, nexh))
+    ires, mres, verdicts = eng.run(cases)
     bad, samples = 0, []
-    dist = {"fatal": 0, "with_warning": 0, "long_lines": 0, "includes": 0}
-    for (fs, top), ic, io, mo, sp in zip(trees, icases, ires, mres, specs):
-        dist["long_lines"] += any(len(l) > 2046 for c in fs.values() for l in c.split(b"\n"))
-        dist["includes"] += sum(c.count(b"#include") for c in fs.values())
-        if sp is None:
-            exp = "FATAL"
-            dist["fatal"] += 1
-        else:
-            hosts = []
-            for e in sp[0]:
-                er = eres[e]
-                if er.startswith("OK "):
-                    hosts += vlib.unhexlist(er[3:])
-            exp = "OK " + hexlist(hosts)
-            dist["with_warning"] += sp[1] > 0
-        got = io if not io.startswith("OK ") else "OK " + io.split(" ", 2)[2]
-        problem = None
-        if io.startswith(("CRASH", "HANG")):
-            problem = ("input", "reading the file tree crashed or did not terminate: " + io)
-        elif got != exp:
-            problem = ("input", "assembled target list differs from the specification")
-        elif sp is not None and sp[1] > 0 and io.startswith("OK W=0 "):
-            problem = ("input", "a file reached twice / a malformed include was skipped without a warning")
-        elif io != mo:
-            problem = ("corr", "implementation and model disagree")
+    counters = {"truncated": 0, "out_of_scope": 0}
+    dist = {"engine_A_trees": 0, "engine_B_command_lines": 0, "errors_expected": 0, "with_warning": 0, "long_lines": 0, "include_lines": 0,
+            "stdin_used": 0, "wcoll_set": 0, "wcoll_fallback_taken": 0, "several_sources": 0, "no_hosts": 0}
+    seen_cases = set()
+    for c, io, mo, v in zip(cases, ires, mres, verdicts):
+        dist["engine_A_trees" if c["engine"] == "A" else "engine_B_command_lines"] += 1
+        dist["long_lines"] += any(len(l) > 2046 for t in case_texts(c) for l in t.split(b"\n"))
+        dist["include_lines"] += sum(t.count(b"#include") for t in case_texts(c))
+        dist["errors_expected"] += v == "ERR"
+        dist["with_warning"] += v not in ("ERR", "SKIP") and v[2] > 0
+        if c["engine"] == "B":
+            words = [w for a in c["args"] for w in s_split(b"^-" if a == b"-" else a)]
+            srcs = [w for w in words if not w.startswith(b"-")]
+            dist["stdin_used"] += any(w.lstrip(b"- ") == b"^-" for w in words) or (not srcs and c["wcoll"] == b"-")
+            dist["wcoll_set"] += c["wcoll"] is not None
+            dist["wcoll_fallback_taken"] += (not srcs) and c["wcoll"] is not None
+            dist["several_sources"] += len(srcs) > 1
+            dist["no_hosts"] += v not in ("ERR", "SKIP") and not v[1]
+        seen_cases.add(json.dumps(to_json(c), sort_keys=True))
+        problem = judge(ctx, c, io, mo, v, counters)
         if problem:
             bad += 1
-            rec = {"fs": {k.decode("latin-1"): v.decode("latin-1")[:3000] for k, v in fs.items()}, "top": top.decode("latin-1")}
+            rec = short(to_json(c))
+            what = "top-level file %r" % c["top"] if c["engine"] == "A" else "pdsh -Q %s, WCOLL=%r, %d bytes on stdin" % (
+                " ".join("-w %r" % a.decode("latin-1") for a in c["args"]), c["wcoll"], len(c["stdin"]))
             if problem[0] == "input":
-                ctx.violation("input", case=rec, expected=exp[:400], observed=io[:400], engine="wcoll", detail=problem[1] + "; top-level file %r" % top)
+                ctx.violation("input", case=rec, expected=problem[2][:600], observed=io[:600], engine="wcoll" if c["engine"] == "A" else "args",
+                              detail=problem[1] + "; " + what)
             else:
-                ctx.violation("no-failing-input-found", case=rec, expected=mo[:400], observed=io[:400], engine="wcoll",
-                              correspondence="wcoll: read_wcoll(impl) = model", detail=problem[1])
+                ctx.violation("no-failing-input-found", case=rec, expected=problem[2][:600], observed=io[:600],
+                              engine="wcoll" if c["engine"] == "A" else "args",
+                              correspondence="read_wcoll / opt_args of the repository = Args.WcollFile.read_wcoll / Args.Assemble.assemble (extracted)",
+                              detail=problem[1] + "; " + what)
             if bad >= 6:
                 break
-        if len(samples) < 2 and len(fs) >= 3 and sp and sp[1] > 0:
-            samples.append({"top": top.decode(), "files": {k.decode(): v.decode("latin-1")[:120] for k, v in fs.items()}, "impl": io[:100]})
-    shutil.rmtree(base, ignore_errors=True)
+        if len(samples) < 3 and v not in ("ERR", "SKIP") and v[2] > 0 and (c["engine"] == "B" or len(c["fs"]) >= 3) and \
+                all(len(t) < 200 for t in case_texts(c)) and not any(s["engine"] == c["engine"] for s in samples):
+            s = to_json(c)
+            s["impl"] = io[:160]
+            samples.append(s)
+    shutil.rmtree(eng.base, ignore_errors=True)
     have_input = any(v["kind"] != "no-failing-input-found" for v in ctx.violations)
     vlib.report_proof_break(ctx, have_input)
     cov = vlib.proof_coverage(ctx, {
-        "evaluations": len(trees), "distinct_nontrivial": len(set(mcases)),
-        "rule": "generated directory trees of 1-5 files in ., d or d/e: host and range lines, comments and blanks anywhere, #include with extra tokens / indentation / missing name, nested, diamond and cyclic include graphs including cycles through the top-level file, unreadable includes, lines of 2040..9000 bytes; read by the real read_wcoll() in a forked child; compared with the extracted model and with an independent assembler; distinct = distinct tree",
-        "samples": samples, "input_distribution": dist, "corpus_cases": ncorpus, "disagreements": bad})
-    return ctx.finish(cov, ["the file system and dirname(3) are modelled (paths without symbolic links)", "command-line order of several sources is exercised by C02's whole-command-line runs"])
+        "evaluations": len(cases), "distinct_nontrivial": len(seen_cases),
+        "rule": "engine A: generated directory trees of 1-5 files in ., d, d/e and directories named with ':' ',' '[ ]' and a blank: host and "
+                "range lines, comments and blanks anywhere, #include with extra tokens / indentation / missing name / CR / no blank / names "
+                "taken as they are (./, ../, absolute), nested, diamond and cyclic include graphs including cycles through the top-level file, "
+                "unreadable includes, include names longer than the path buffer, lines of 2040..9000 bytes (long host lists, a name straddling "
+                "byte 2047 after blanks, long comments), a few lines with a NUL byte (correspondence only); read by the real read_wcoll() in a "
+                "forked child with a 5 s alarm.  engine B: the real pdsh binary, `pdsh -Q` with 0-5 sources (-w words and ranges, ^file, "
+                "'-' and '^-' for standard input, '-word' and '-^file' exclusions, missing files, leading blanks) in every order and grouping "
+                "into -w arguments, WCOLL unset / a file / missing / '-', 10 s per case.  Both compared with the extracted model and with an "
+                "independent Python assembler (S); distinct = distinct case",
+        "samples": samples, "input_distribution": dist, "corpus_cases": ncorpus, "exhaustive_order_cases": nexh, "disagreements": bad,
+        "q_output_truncated_skipped": counters["truncated"], "seconds_cases": round(time.time() - t0, 1)})
+    return ctx.finish(cov, ["the file system is an abstract finite map from path strings to contents; a file is identified by the string "
+                            "the code builds for it (two spellings of one file are two files, as in the code's include cache); dirname(3) is modelled",
+                            "expansion of a host expression is opaque here (C01); the hosts of S's expressions are obtained from the hostlist code",
+                            "filters (-x, -word, /regex/) and rcmd_type:user@ words belong to C02 / C09: the model answers OutOfScope and such "
+                            "command lines are not generated, except exclusions that match no host",
+                            "no module supplies a target list (mod_read_wcoll): only the exec module is loaded"])
 
 
 def write_cfg(ctx):
@@ -196,5 +711,20 @@ def write_cfg(ctx):
 
 
 def replay(ctx, path):
-    print(json.dumps(json.load(open(path)), indent=1)[:3000])
-    return 0
+    rec = json.load(open(path))
+    print(json.dumps(rec, indent=1)[:3000])
+    case = rec.get("case")
+    if not isinstance(case, dict) or "fs" not in case or any("...[" in v for v in case["fs"].values()):
+        print("(case abbreviated or not a C10 case: not re-run)")
+        return 0
+    ctx.gen_params()
+    eng = Engines(ctx)
+    c = from_json(case)
+    c["dir"] = eng.new_dir()
+    ires, mres, verdicts = eng.run([c])
+    print("implementation:", ires[0][:600])
+    print("model:         ", canon_model(c["engine"], mres[0])[:600])
+    print("specification: ", str(expected_line(c["engine"], verdicts[0]))[:600])
+    p = judge(ctx, c, ires[0], mres[0], verdicts[0], {"truncated": 0, "out_of_scope": 0})
+    print("verdict:", "reproduced: " + p[1] if p else "not reproduced")
+    return 1 if p else 0
